@@ -716,5 +716,43 @@ example :
     ["b", "b"].isPerm ([("a", 2), ("b", 3)].map (·.1)) = false := by
   refine ⟨by decide, by decide, by decide, by decide, by decide, by decide, by decide, by decide,
     by decide, by decide, by decide⟩
+/-! ## 10. Conversions between `IndexRange` and `Range<usize>` -/
+
+/-- As written, `Range<usize>::from(IndexRange)` overflows on `start + length` (finding D-14). -/
+theorem pre_toStdRange_panics : IndexRange.toStdRangePre ⟨1, usizeMax⟩ = .panic .overflow := by decide
+
+/-- The conversions are total on the whole `usize × usize` domain (repaired `to`, fix D-14):
+    `to` keeps the start and ends at `min(start + length, usize::MAX)` — a representable end, the
+    unchecked code's answer whenever that does not overflow; `from` keeps the start with the
+    saturated difference as length; converting there and back is the identity on every range
+    whose end is representable, and converting a `Range` to an `IndexRange` and back yields the
+    same range whenever `start ≤ end`. -/
+theorem std_range_conversions_total (r : IndexRange) (hs : r.start ≤ usizeMax)
+    (hl : r.length ≤ usizeMax) (a b : Nat) :
+    (r.toStdRange).1 = r.start ∧ (r.toStdRange).2 ≤ usizeMax ∧ r.start ≤ (r.toStdRange).2 ∧
+    (r.start + r.length ≤ usizeMax → IndexRange.toStdRangePre r = .ok r.toStdRange ∧
+      IndexRange.ofStdRange r.toStdRange.1 r.toStdRange.2 = r) ∧
+    (usizeMax < r.start + r.length → IndexRange.toStdRangePre r = .panic .overflow ∧
+      r.toStdRange = (r.start, usizeMax)) ∧
+    (IndexRange.ofStdRange a b).start = a ∧ (IndexRange.ofStdRange a b).length = b - a ∧
+    (a ≤ b → b ≤ usizeMax → (IndexRange.ofStdRange a b).toStdRange = (a, b)) := by
+  refine ⟨rfl, ?_, ?_, ?_, ?_, rfl, rfl, ?_⟩
+  · simp only [IndexRange.toStdRange]; omega
+  · simp only [IndexRange.toStdRange]; omega
+  · intro h
+    refine ⟨?_, ?_⟩
+    · simp only [IndexRange.toStdRangePre, cadd_ok h, IndexRange.toStdRange, Nat.min_eq_left h]
+    · simp only [IndexRange.toStdRange, IndexRange.ofStdRange, Nat.min_eq_left h]
+      cases r; simp
+  · intro h
+    refine ⟨?_, ?_⟩
+    · simp only [IndexRange.toStdRangePre, cadd]
+      rw [if_neg (by omega)]
+    · simp only [IndexRange.toStdRange]
+      rw [Nat.min_eq_right (by omega)]
+  · intro hab hb
+    simp only [IndexRange.toStdRange, IndexRange.ofStdRange]
+    rw [Nat.add_sub_cancel' hab, Nat.min_eq_left hb]
+
 
 end EasyMl.C16
